@@ -318,7 +318,7 @@ pub static C04: Profile = Profile {
     raw,
     build: c04_build,
     check: c04_check,
-    budget: Budget { r_cases: (1500, 20000), s_cases: (3000, 20000), s_scheds: (16, 64) },
+    budget: Budget { r_cases: (3000, 20000), s_cases: (6000, 20000), s_scheds: (16, 64) },
     liveness: true,
     enumerate: None,
     extra: None,
@@ -331,7 +331,7 @@ pub static C15: Profile = Profile {
     raw,
     build: c15_build,
     check: c15_check,
-    budget: Budget { r_cases: (1500, 20000), s_cases: (2000, 10000), s_scheds: (16, 64) },
+    budget: Budget { r_cases: (3000, 20000), s_cases: (4000, 10000), s_scheds: (16, 64) },
     liveness: true,
     enumerate: None,
     extra: None,
